@@ -159,6 +159,22 @@ def run(x, y):
     objs = [S(x), T(y)]
     return (out, f(y), [o.describe() for o in objs], isinstance(objs[1], S), sorted([3, x, y], reverse=True), "%s-%d" % ("a", x), str(y).zfill(3))
 ''', [(0, 0), (1, 2), (2, 1), (3, 0)]),
+    "listpop": ('''
+def run(x, y):
+    v = "H:" + str(x) + "/B:" + str(y) + "/C:3"
+    fields = v.split("/")
+    head = fields.pop(0)
+    last = fields.pop()
+    name, minor = head.split(":")
+    rest = list(fields)
+    out = []
+    try:
+        fields.pop()
+        fields.pop()
+    except IndexError:
+        out.append("empty")
+    return (head, last, name, int(minor), rest, len(fields), out)
+''', [(0, 0), (1, 2), (2, 1), (3, 3)]),
     "sequences": ('''
 def run(x, y):
     l = [x, y, x + y, 7]
